@@ -56,12 +56,12 @@ func genDHCP(prop string, seed uint64, tier string) Scenario {
 		sc.Extra = map[string]int{"quick": 1}
 	}
 	// weights: disc req decl rel capture release adv tick foreign session(dora) fsfail contention
-	wts := []int{18, 26, 5, 4, 5, 3, 10, 5, 6, 12, 0, 6, 4, 3, 3, 3}
+	wts := []int{18, 26, 5, 4, 5, 3, 10, 5, 6, 12, 0, 6, 4, 3, 3, 3, 3}
 	if prop == "C12" {
-		wts = []int{18, 26, 3, 3, 9, 6, 8, 4, 4, 14, 0, 5, 2, 4, 4, 1}
+		wts = []int{18, 26, 3, 3, 9, 6, 8, 4, 4, 14, 0, 5, 2, 4, 4, 1, 1}
 	}
 	if prop == "C18" {
-		wts = []int{10, 12, 3, 2, 4, 2, 6, 3, 4, 30, 3, 4, 1, 2, 0, 1}
+		wts = []int{10, 12, 3, 2, 4, 2, 6, 3, 4, 30, 3, 4, 1, 2, 0, 1, 1}
 		nops = 2 + r.n(14)
 		sc.Family = "lease"
 	}
@@ -123,6 +123,18 @@ func genDHCP(prop string, seed uint64, tier string) Scenario {
 			}
 			if r.chance(1, 2) {
 				sc.Ops = append(sc.Ops, Op{K: "req", M: a})
+			}
+		case 16:
+			// a client comes back for the address it used to hold after its lease ran out and somebody
+			// else moved in
+			m := client()
+			sc.Ops = append(sc.Ops, Op{K: "disc", M: m}, Op{K: "req", M: m}, Op{K: "adv", D: 6})
+			if r.chance(2, 3) {
+				sc.Ops = append(sc.Ops, Op{K: "tick"})
+			}
+			sc.Ops = append(sc.Ops, Op{K: "foreign", M: m, X: 1}, Op{K: "disc", M: m, I: 12})
+			if r.chance(1, 2) {
+				sc.Ops = append(sc.Ops, Op{K: "req", M: m})
 			}
 		case 15:
 			// a second device presents another client's identifier (a cloned or spoofed client id)
@@ -274,6 +286,8 @@ func (d *dhcpRun) candidate(c *dhIdent, sel int, def netip.Addr) netip.Addr {
 		return u.IP4[world.FirstClientIP4+c.idx%(len(u.IP4)-world.FirstClientIP4)]
 	case 10:
 		return u.NFBcast
+	case 12:
+		return c.lease // the address this client held last, whatever became of that lease
 	default:
 		if len(d.foreign) > 0 {
 			return d.foreign[len(d.foreign)-1]
@@ -565,6 +579,11 @@ func runDHCPCore(e *exec, onAck func(d *dhcpRun, ri *reqInfo, y netip.Addr)) *dh
 			continue
 		case "foreign":
 			ip := u.IP4[world.FirstClientIP4+o.I%(len(u.IP4)-world.FirstClientIP4)]
+			if o.X == 1 { // ... on the address client M held last
+				if l := d.cl[o.M%len(d.cl)].id(o.P).lease; l.IsValid() {
+					ip = l
+				}
+			}
 			d.foreign = append(d.foreign, ip)
 			f := fb.Eth(u.MACs[world.MRouter], u.MACs[world.MCtl1], 0x0800, fb.IPv4(ip, u.RouterIP, 17, 64, 9, fb.UDP(5000, 5001, []byte("x"))))
 			w.Inject(f)
